@@ -500,7 +500,7 @@ pub fn install_panic_hook() {
     }));
 }
 
-pub const WATCHDOG_SECS: u64 = 60;
+pub const WATCHDOG_SECS: u64 = 30;
 
 /// Runs one world on a fresh thread and returns what happened.
 pub fn run_world(spec: &WorldSpec) -> WorldResult {
